@@ -223,6 +223,11 @@ func (r *Repo) Discover(maxCommits int) (res Found) {
 // DiscoverFiltered is Discover under a `parser { include = [...] exclude = [...] }`
 // configuration (patterns are anchored exactly as pint's config loader does).
 func (r *Repo) DiscoverFiltered(maxCommits int, include, exclude []string) (res Found) {
+	return r.DiscoverParser(maxCommits, include, exclude, nil)
+}
+
+// DiscoverParser additionally takes the parser { relaxed = [...] } patterns.
+func (r *Repo) DiscoverParser(maxCommits int, include, exclude, relaxed []string) (res Found) {
 	old, err := os.Getwd()
 	if err != nil {
 		res.Err = err
@@ -239,7 +244,7 @@ func (r *Repo) DiscoverFiltered(maxCommits int, include, exclude []string) (res 
 			res.Stack = string(debug.Stack())
 		}
 	}()
-	filter := git.NewPathFilter(config.MustCompileRegexes(include...), config.MustCompileRegexes(exclude...), nil)
+	filter := git.NewPathFilter(config.MustCompileRegexes(include...), config.MustCompileRegexes(exclude...), config.MustCompileRegexes(relaxed...))
 	entries, err := discovery.NewGlobFinder([]string{"*"}, filter, parser.PrometheusSchema, model.UTF8Validation, nil).Find()
 	if err != nil {
 		res.Err = fmt.Errorf("glob finder: %w", err)
